@@ -526,6 +526,37 @@ def _task_aftermath(task):
                 proto.dataReceived(raw)
             except Exception:
                 pass
+        # descriptors the hostile peer had sent along stay its own: another
+        # connection that receives one descriptor and a message naming it
+        # decodes its own
+        try:
+            hp, _t = c04.make_server()
+            hp.dataReceived(c04.SERVER_HS)
+            hp.fileDescriptorReceived(101)
+            hp.fileDescriptorReceived(102)
+            try:
+                hp.dataReceived(raw)
+            except Exception:
+                pass
+            gp, _t = c04.make_server()
+            gp.dataReceived(c04.SERVER_HS)
+            gp.fileDescriptorReceived(7)
+            gp.dataReceived(R.encode_message(
+                1, 30, {'path': '/a', 'member': 'M', 'unix_fds': 1}, 'h',
+                [0], fds=[]))
+            bodies = [m.body for m in gp.got]
+        except Exception as e:
+            bodies = 'raised %r' % (e,)
+        if bodies != [[7]]:
+            res.violation('%s/aftermath/descriptors/%s'
+                          % (PROP, tag.split(':')[0]),
+                          'a peer sent two descriptors and a hostile message '
+                          '(family %s) and was dropped; another connection '
+                          'then received descriptor 7 and a message naming '
+                          'its first descriptor: delivered %r'
+                          % (tag, bodies), {'part': 'aftermath'},
+                          size=len(raw))
+            break
         res.count('evaluations')
         after = [_summary(g) for g in goods]
         if after != fresh:
